@@ -21,6 +21,11 @@ func (m *Manager) DAIncluderLoop(ctx context.Context, errCh chan<- error) {
 		}
 		currentDAIncluded := m.GetDAIncludedHeight()
 		for {
+			// a backlog of DA-included heights is worked off here: stop between two heights
+			// when the node is asked to stop (each height is recorded completely or not at all)
+			if ctx.Err() != nil {
+				return
+			}
 			nextHeight := currentDAIncluded + 1
 			daIncluded, err := m.IsDAIncluded(ctx, nextHeight)
 			if err != nil {
